@@ -25,7 +25,7 @@ func init() {
 	Extra["gen-golden"] = genGolden
 	register(&Prop{
 		ID: "C19", Level: "exploration",
-		Rule: "the real version-record repository (repository/file: Set, GetAll) over a recording key-value provider written in the harness, against an independent encoder/decoder written from the documented layout (8-byte little-endian sequence, 16-byte transaction id, 16-byte content id, raw key). (1) seeded records (keys: empty, 1 byte, non-UTF-8, NUL, 10000 bytes; sequences 0, 1, 255, 256, 2^32+-1, 2^63, 2^64-1, random; random canonical UUIDs and the nil UUID): bytes written by the repository == specification bytes, and GetAll of specification bytes == the record; (2) committed golden hex vectors; (3) every length 0..100 of arbitrary bytes through GetAll: never panics, lengths < 40 rejected, lengths >= 40 decoded as the specification decodes them; (4) a golden Badger directory written earlier (two versions per key whose order flips under a byte-order change) opened through inline.Open must yield the recorded values. evaluations = records + byte strings + golden items; distinct_nontrivial = distinct (key class, sequence class, direction) + (length, outcome) classes",
+		Rule:        "the real version-record repository (repository/file: Set, GetAll) over a recording key-value provider written in the harness, against an independent encoder/decoder written from the documented layout (8-byte little-endian sequence, 16-byte transaction id, 16-byte content id, raw key). (1) seeded records (keys: empty, 1 byte, non-UTF-8, NUL, 10000 bytes; sequences 0, 1, 255, 256, 2^32+-1, 2^63, 2^64-1, random; random canonical UUIDs and the nil UUID): bytes written by the repository == specification bytes, and GetAll of specification bytes == the record; (2) committed golden hex vectors; (3) every length 0..100 of arbitrary bytes through GetAll: never panics, lengths < 40 rejected, lengths >= 40 decoded as the specification decodes them; (4) a golden Badger directory written earlier (two versions per key whose order flips under a byte-order change) opened through inline.Open must yield the recorded values. evaluations = records + byte strings + golden items; distinct_nontrivial = distinct (key class, sequence class, direction) + (length, outcome) classes",
 		Assumptions: []string{"golden files under /verif/golden were written by the revision the task pinned (plus the fix: commits, none of which touches the codec)"},
 		Roles: map[string]Role{
 			"records": {N: func(t string) int { return tierN(t, 16, 64) }, Case: c19Records},
@@ -40,8 +40,10 @@ type recProvider struct {
 	data map[string][]byte
 }
 
-func (p *recProvider) RunTransaction(ctx context.Context, fn verif.TransactionFn) error { return fn(ctx) }
-func (p *recProvider) DB(context.Context) verif.QueryManager                           { return p }
+func (p *recProvider) RunTransaction(ctx context.Context, fn verif.TransactionFn) error {
+	return fn(ctx)
+}
+func (p *recProvider) DB(context.Context) verif.QueryManager { return p }
 func (p *recProvider) Set(key, val []byte) error {
 	p.data[string(key)] = append([]byte(nil), val...)
 	return nil
